@@ -816,14 +816,14 @@ func replayGen(prop string) func(r *fw.Run, raw json.RawMessage) {
 func init() {
 	fw.Register(&fw.Engine{
 		ID: "C07", Level: "translation_validation",
-		Rule: "programs = interface descriptions in the stated domain: 23 fixed special cases (typeless errors, dashes / upper case / xn-- / digits in the interface name, optional struct / optional array-of-struct / optional map-of-struct at parameter positions, CRLF and tab layouts, doc comments with backticks and with the words the import patcher looks for, all Go keywords and generator-local identifiers as field names, recursive aliases through containers, object everywhere, enums, 60 members), every type of nesting depth <= 2 over all constructors placed at method input, method output, error parameter, alias body and nested positions (quick: 60 seeded picks, thorough: all 1130), and seeded random descriptions (<= 20 members, depth <= 5) in 4 layouts. For each: the generator binary built from the tree under test runs twice in separate directories (exit status, stderr, one output file, package clause is the lower-cased interface name without characters illegal in a Go identifier, byte-identical second run); all outputs are compiled together with glue in one batch module against the tree's varlink package (go build, diagnostics attributed per package, failing packages dropped and the rest rebuilt); the batch binary reports VarlinkGetName() and VarlinkGetDescription() of every package, compared with the interface name and (up to trailing newlines) the description text. non-trivial = >= 2 members or a composite type; distinct by hash of the text.",
+		Rule: "programs = interface descriptions in the stated domain: 23 fixed special cases (typeless errors, dashes / upper case / xn-- / digits in the interface name, optional struct / optional array-of-struct / optional map-of-struct at parameter positions, CRLF and tab layouts, doc comments with backticks and with the words the import patcher looks for, all Go keywords and generator-local identifiers as field names, recursive aliases through containers, object everywhere, enums, 60 members), every type of nesting depth <= 2 over all constructors placed at method input, method output, error parameter, alias body and nested positions (quick: 60 seeded picks, thorough: all 1130), and seeded random descriptions (<= 20 members, depth <= 5) in 4 layouts. For each: the generator binary built from the tree under test runs twice in separate directories (exit status, stderr, one output file, package clause is the lower-cased interface name without characters illegal in a Go identifier, byte-identical second run); all outputs are compiled together with glue in one batch module against the tree's varlink package (go build, diagnostics attributed per package, failing packages dropped and the rest rebuilt); the batch binary reports VarlinkGetName() and VarlinkGetDescription() of every package, compared with the interface name and (up to trailing newlines) the description text. non-trivial = >= 2 members or a composite type; distinct by hash of the text. Further fixed cases: aliases of object (also forward references), aliases of builtins, 14-field lists, member names built from other member names with common prefixes.",
 		Assumptions: []string{"the Go compiler is the oracle of 'compiles and type-checks'", "member names follow [A-Z][A-Za-z0-9]* and avoid the generator's fixed identifiers and Reply*/Dispatch* prefixes; field names are distinct after Go's exported-name mapping except in the fixed special case that probes exactly that"},
 		Run:         runC07, Replay: replayGen("C07"), CrashIsViolation: false, MinEvals: 20,
 		QuickTimeout: 20 * time.Minute, ThoroughTimeout: 90 * time.Minute,
 	})
 	fw.Register(&fw.Engine{
 		ID: "C08", Level: "translation_validation",
-		Rule: "programs = the C07 description set (minus the two cases known not to compile); per package harness-written glue (its own printer of the untagged Go types an API user writes) implements the generated interface, overriding a seed-chosen subset of methods with forwarders into a reflective handler, and registers the generated client stubs and error types. The batch binary starts a real Service per package with VarlinkNew(impl), connects a real Connection through a recording proxy and, for every overridden method, runs 8 (thorough 24) value sets cycling through the scenarios Call, error reply, more-sequence (1..4 replies), oneway (+ barrier), upgrade (+ raw bytes), more-sequence ending in an error reply, upgrade answered with an error reply. Values are generated per declared type (int64 extremes, floats, unicode strings incl. NUL, empty and nested arrays/maps/structs, absent and present optionals, arbitrary JSON for object, each enum name). Oracle: request frame method = <interface>.<Method>, flags exactly as requested, parameters match the input values per the varlink JSON mapping with exactly the declared field names; the implementation receives equal Go values and sees the same flags; reply / error frames match the values given to the generated Reply helpers (error member = <interface>.<Error>); the client returns equal values, Continues on all but the last reply, or the generated typed error with equal fields; non-overridden methods => MethodNotImplemented; unknown method => MethodNotFound; absent and array-typed parameters => InvalidParameter without invoking the implementation; bytes written on the object returned by Upgrade reach Call.Conn.",
+		Rule: "programs = the C07 description set (minus the two cases known not to compile); per package harness-written glue (its own printer of the untagged Go types an API user writes) implements the generated interface, overriding a seed-chosen subset of methods with forwarders into a reflective handler, and registers the generated client stubs and error types. The batch binary starts a real Service per package with VarlinkNew(impl), connects a real Connection through a recording proxy and, for every overridden method, runs 8 (thorough 24) value sets cycling through the scenarios Call, error reply, more-sequence (1..4 replies), oneway (+ barrier), upgrade (+ raw bytes), more-sequence ending in an error reply, upgrade answered with an error reply. Values are generated per declared type (int64 extremes, floats, unicode strings incl. NUL, empty and nested arrays/maps/structs, absent and present optionals, arbitrary JSON for object, each enum name). Oracle: request frame method = <interface>.<Method>, flags exactly as requested, parameters match the input values per the varlink JSON mapping with exactly the declared field names; the implementation receives equal Go values and sees the same flags; reply / error frames match the values given to the generated Reply helpers (error member = <interface>.<Error>); the client returns equal values, Continues on all but the last reply, or the generated typed error with equal fields; non-overridden methods => MethodNotImplemented; unknown method => MethodNotFound; absent and array-typed parameters => InvalidParameter without invoking the implementation; bytes written on the object returned by Upgrade reach Call.Conn. Every declared error is used in turn, on Call, Send(more) and Upgrade; packages with more than two errors get extra error rounds.",
 		Assumptions: []string{"nil and empty containers are equal; JSON null is tolerated for an empty array/map on the wire", "floats are compared as float64 values, integers as decimal text"},
 		Run:         runC08, Replay: replayGen("C08"), CrashIsViolation: false, MinEvals: 20,
 		QuickTimeout: 20 * time.Minute, ThoroughTimeout: 90 * time.Minute,
